@@ -189,11 +189,11 @@ func (g *gen) genNew() {
 	malformed := r.P(1, 12) || (g.opt["newonly"] != "" && r.P(1, 3))
 	// key test frames: few columns over tiny alphabets, always with a bool column, enough rows for every combination
 	// to occur several times and for rows to differ in one column only (grouping / Distinct over all columns)
-	keytest := !malformed && r.P(1, 12)
+	keytest := !malformed && (r.P(1, 12) || (g.opt["keyheavy"] != "" && r.P(1, 3)))
 	if keytest {
 		ncols = 2 + r.Intn(2)
 		n = 8 + r.Intn(12)
-		g.nullP = r.PickInt([]int{0, 0, 1})
+		g.nullP = r.PickInt([]int{0, 1, 3}) // null keys that repeat: the Null setting decides whether they are one group
 	}
 	emptyFirst := malformed && r.P(1, 3)
 	data := map[string]types.DataSlice{}
@@ -1862,6 +1862,19 @@ func (g *gen) genKeyCols(f *hframe, bad bool) []string {
 	keys := []string{}
 	for i := 0; i < k; i++ {
 		keys = append(keys, f.cols[r.Intn(len(f.cols))].name)
+	}
+	if len(f.cols) >= 2 && len(f.cols) <= 4 && r.P(1, 4) {
+		// a composite key over all columns in frame order (or reversed): a column that cannot hold null before
+		// one that can, and the other way round
+		keys = keys[:0]
+		for _, c := range f.cols {
+			keys = append(keys, c.name)
+		}
+		if r.Bool() {
+			for i, j := 0, len(keys)-1; i < j; i, j = i+1, j-1 {
+				keys[i], keys[j] = keys[j], keys[i]
+			}
+		}
 	}
 	// avoid duplicates in keys (allowed by the API but uninteresting)
 	seen := map[string]bool{}
